@@ -24,6 +24,8 @@
       depth clamped to maxdepth, radius unchanged (radians), nested, inclusive.
 -/
 import Aegean.Proofs.C09Region
+import Aegean.Proofs.C09Poly
+import Aegean.Proofs.C17Sphere
 
 open Aegean.Model.C09 Real InnerProductGeometry MeasureTheory
 
@@ -89,6 +91,25 @@ theorem sky2vec_angle (ra1 dec1 ra2 dec2 : ℝ) :
 theorem angle_skyvec (ra1 dec1 ra2 dec2 : ℝ) :
     angle (toE3 (skyvec ra1 dec1)) (toE3 (skyvec ra2 dec2)) = sepHav ra1 dec1 ra2 dec2 := by
   rw [← sky2vec_angle, sky2vec_eq_skyvec, sky2vec_eq_skyvec]
+
+/-- link to C17 (degrees): the radian separation used here is π/180 times C17's `sphDist`, the
+    quantity C17 proves `angle_tools.gcd` computes -/
+theorem sep_eq_C17_sphDist (ra1 dec1 ra2 dec2 : ℝ) :
+    sepHav (R.radians ra1) (R.radians dec1) (R.radians ra2) (R.radians dec2)
+      = π / 180 * Aegean.C17.sphDist ra1 dec1 ra2 dec2 := by
+  have e : ∀ ra dec : ℝ, Aegean.C17.uvec ra dec = toE3 (skyvec (R.radians ra) (R.radians dec)) := by
+    intro ra dec
+    simp [Aegean.C17.uvec, Aegean.C17.toE3, Aegean.Model.C17.unitVec, toE3, skyvec]
+  have hp : π ≠ 0 := Real.pi_ne_zero
+  unfold Aegean.C17.sphDist
+  rw [e, e, angle_skyvec]
+  field_simp
+
+/-- … hence equals `angle_tools.gcd` (C17's hand copy of the repaired formula) converted to radians -/
+theorem sep_eq_gcd (ra1 dec1 ra2 dec2 : ℝ) :
+    sepHav (R.radians ra1) (R.radians dec1) (R.radians ra2) (R.radians dec2)
+      = R.radians (Aegean.Model.C17.gcdNearHand ra1 dec1 ra2 dec2) := by
+  rw [sep_eq_C17_sphDist, Aegean.C17.gcdNearHand_eq_sphDist, R.real_radians]; ring
 
 /-- `vec2sky (sky2vec (ra, dec))` returns `dec`, on the closed range −π/2 ≤ dec ≤ π/2 (poles included) -/
 theorem vec2sky_sky2vec_dec (isNeg : ℝ → Bool) (ra dec : ℝ) (h1 : -(π / 2) ≤ dec) (h2 : dec ≤ π / 2) :
@@ -345,6 +366,41 @@ theorem poly_excludes_beyond_partial (H : Healpix) (m : ℕ) (depth : Option ℕ
     (h : Rc + 3 * pixSize (clampDepth m depth) < sepHav rac decc ra dec) :
     regionWithin H m (clampDepth m depth) D false ra dec = false :=
   poly_excludes_far_partial H m depth pos D hD rac decc Rc ra dec hcap (by linarith)
+
+/-- **a convex polygon lies inside its circumscribed circle** (full proof, no contract): every
+    position on the inner side of all edge planes is within `Rc` of the centre, if every vertex is
+    (`Rc ≤ π/2`) and the polygon is convex in the sense that every fan triangle (v₀, vᵢ, vᵢ₊₁) has the
+    polygon's orientation.  This discharges the hypothesis `hcap` of `poly_excludes_*_partial`. -/
+theorem poly_in_circumcircle (p0 : ℝ × ℝ) (ps : List (ℝ × ℝ)) (rac decc Rc : ℝ) (hlen : 2 ≤ ps.length)
+    (hR0 : 0 ≤ Rc) (hR : Rc ≤ π / 2)
+    (hv : ∀ p ∈ p0 :: ps, sepHav rac decc p.1 p.2 ≤ Rc)
+    (hfan : ∀ e ∈ pairs (polyVerts ps),
+      0 < orient (polyVerts (p0 :: ps)) * triple (toE3 (skyvec p0.1 p0.2)) e.1 e.2) :
+    ∀ x ∈ polyClosed (polyVerts (p0 :: ps)), angle x (toE3 (skyvec rac decc)) ≤ Rc := by
+  have hcons : polyVerts (p0 :: ps) = toE3 (skyvec p0.1 p0.2) :: polyVerts ps := rfl
+  have hall : ∀ x ∈ polyVerts (p0 :: ps), ‖x‖ = 1 ∧ angle x (toE3 (skyvec rac decc)) ≤ Rc := by
+    intro x hx
+    obtain ⟨p, hp, rfl⟩ := List.mem_map.mp hx
+    exact ⟨norm_skyvec _ _, by rw [angle_comm, angle_skyvec]; exact hv p hp⟩
+  rw [hcons] at hall hfan ⊢
+  exact polygon_subset_cap _ _ _ Rc (by simpa [polyVerts] using hlen) (fun x hx => (hall x hx).1)
+    (norm_skyvec _ _) hR0 hR (fun x hx => (hall x hx).2) hfan
+
+/-- FULL CLAUSE for convex polygons with the circumscribed-circle hypothesis discharged: vertices
+    within `Rc ≤ π/2` of (rac, decc), fan-convex ⇒ nothing farther than `Rc + 3 pixel sizes` from
+    (rac, decc) is inside.  Assumed: the `PolyQuery` contract and `2ρ + slack ≤ 3·pixSize` only. -/
+theorem poly_excludes_beyond_convex_partial (H : Healpix) (m : ℕ) (depth : Option ℕ) (p0 : ℝ × ℝ)
+    (ps : List (ℝ × ℝ)) (D : Finset ℕ) (hD : polyPixels H m depth (p0 :: ps) = some D)
+    (rac decc Rc ra dec : ℝ) (hlen : 2 ≤ ps.length) (hR0 : 0 ≤ Rc) (hR : Rc ≤ π / 2)
+    (hv : ∀ p ∈ p0 :: ps, sepHav rac decc p.1 p.2 ≤ Rc)
+    (hfan : ∀ e ∈ pairs (polyVerts ps),
+      0 < orient (polyVerts (p0 :: ps)) * triple (toE3 (skyvec p0.1 p0.2)) e.1 e.2)
+    (hρ : 2 * (H.grid (clampDepth m depth)).ρ + (H.poly (clampDepth m depth)).slack
+          ≤ 3 * pixSize (clampDepth m depth))
+    (h : Rc + 3 * pixSize (clampDepth m depth) < sepHav rac decc ra dec) :
+    regionWithin H m (clampDepth m depth) D false ra dec = false :=
+  poly_excludes_beyond_partial H m depth (p0 :: ps) D hD rac decc Rc ra dec
+    (poly_in_circumcircle p0 ps rac decc Rc hlen hR0 hR hv hfan) hρ h
 
 /-- list arguments / repeated `add_circles`: a region holding the union of two pixel sets answers
     the disjunction — so every circle of a list is covered (`circle_contains_partial` for each), and
